@@ -32,7 +32,7 @@ EXPLANATION = (
     'move is in its attack set and not onto an own piece), and conversely every move of the class the generator promises (all moves / '
     'evasions on valid targets or en passant / captures and promotions / captures, promotions, direct and discovered checks) is contained '
     'in some emitted mask. (2) castling emission guards, (3) attack-function/piece-set pairing and promotion emission, (4) legality '
-    'shortcut guards, (5) givesCheck scan guards, evaluated with constants folded per instantiation. Added later; (2) no condition other than the castling rules or a givesCheck filter restricts a generated castling move.')
+    'shortcut guards, (5) givesCheck scan guards, evaluated with constants folded per instantiation. Added later; (2) no condition other than the castling rules or a givesCheck filter restricts a generated castling move. (7) nextPieceSafe reads the board for exactly the 64 (file, rank) pairs on it (100 pairs evaluated).')
 UNDECIDED = ('that the precomputed attack, direction and between-square tables (BitBoard::staticInitialize, magic multiplication) contain the '
              'right geometry for every square and occupancy, that the legality filter and givesCheck agree with making the move for every '
              'position (value-level), and absence of duplicates across helper calls. The rules take the attack tables as atoms.')
@@ -237,6 +237,7 @@ def run(fb, rep, tier):
     c4_shortcuts(fb, rep)
     c5_gives_check(fb, rep)
     c6_tables(fb, rep)
+    c7_ray_scan_bounds(fb, rep)
 
 
 # --------------------------------------------------------------------------- .1 mask algebra
@@ -1864,3 +1865,41 @@ def ep_tables(fb, rep, clause):
         rep.ob(clause, 'K12 table contents', 'staticInitialize: %s[file] is exactly the two (at the edge: one) squares beside that file on rank %d, for all 8 files' % (tbl.split('::')[-1], rank + 1),
                not bad, R.site(f, e), '; '.join(bad[:3]), f.sname)
     return n
+
+
+# ----------------------------------------------------------------------------- .7
+
+def c7_ray_scan_bounds(fb, rep):
+    """K12 the bounds of the unguarded ray walk.  givesCheck() looks for the first piece behind a square with nextPieceSafe(), which
+    steps a (file, rank) pair and must stop exactly when it leaves the board: the read of the board is evaluated for every
+    pair in [-1, 8] x [-1, 8]; it must be reachable for the 64 pairs on the board and unreachable for the 36 off it.  A
+    test that stops one rank early never sees a piece on the 8th rank: discovered checks by a slider there, castling and
+    en-passant checks against a king there are reported as "no check" and the child node is searched with the wrong flag."""
+    clause = 'C01.7'
+    f = fb.find1('MoveGen::nextPieceSafe')
+    if rep.need(clause, f, 'MoveGen::nextPieceSafe') is None:
+        return
+    coord = {}
+    for b, i, e in f.events():
+        if e.get('k') == 'decl':
+            for v in e.get('vars', []):
+                init = strip_casts(v.get('init'))
+                if isinstance(init, dict) and init.get('k') == 'call' and cname(init) in ('Square::getX', 'Square::getY'):
+                    coord[cname(init)[-1]] = v['id']
+    if rep.need(clause, None if set(coord) != {'X', 'Y'} else 1, 'the file / rank locals of nextPieceSafe') is None:
+        return
+    reads = [(b, i, e) for b, i, e in f.events() if e.get('k') == 'call' and cname(e) == 'Position::getPiece']
+    if rep.floor(clause, 'board reads in nextPieceSafe', len(reads), 1) is False or not reads:
+        return
+    from .. import regions as G2
+    b0 = reads[0][0]
+    bad = []
+    for x in range(-1, 9):
+        for y in range(-1, 9):
+            leaf = lambda t, _x=x, _y=y: ('v', _x) if t.get('k') == 'var' and t.get('id') == coord['X'] else (('v', _y) if t.get('k') == 'var' and t.get('id') == coord['Y'] else None)
+            excl = G2.excluded_under(f, b0, leaf)
+            inside = 0 <= x <= 7 and 0 <= y <= 7
+            if excl == inside:
+                bad.append('(%d,%d) %s' % (x, y, 'on the board but never read' if inside else 'off the board but read'))
+    rep.ob(clause, 'K12 index bound', 'nextPieceSafe reads the board for exactly the 64 (file, rank) pairs on it (100 pairs evaluated)', not bad, R.site(f, reads[0][2]),
+           '; '.join(bad[:4]) + (' (%d in all)' % len(bad) if bad else 'all 100 as wanted'), f.sname)
